@@ -18,7 +18,7 @@ RULE = ('case = up to 6 requests with patterns sharing prefixes of length 1..4 a
         '(request script, loss script, observed transmission-time vector).')
 ASSUMPTIONS = ['virtual time: library processing takes zero time, so retransmission instants are exact',
                'two requests with identical patterns pending at once are not generated (the library keys timers by pattern)']
-REQUIRED = ['mon.answers_handed_out_by_the_driver_of_a_closed_session', 'mon.pairs_of_requests_pending_with_the_same_expectation', 'mon.answers_that_were_the_first_packet_the_object_ever_received',
+REQUIRED = ['mon.links_closed_at_the_instant_a_retry_timer_expires_and_reopened_at_once', 'mon.answers_handed_out_by_the_driver_of_a_closed_session', 'mon.pairs_of_requests_pending_with_the_same_expectation', 'mon.answers_that_were_the_first_packet_the_object_ever_received',
             'mon.set_up_requests_of_the_library_on_a_link_without_delivery_guarantee',
             'mon.cases_with_a_second_crazyflie_object_waiting_for_the_same_answer',
             'mon.requests_issued_from_the_callback_of_the_previous_answer_with_the_same_expectation',
@@ -43,7 +43,7 @@ def cases(tier, seed):
             for i in range(60 if tier == 'quick' else 400)]
     out += [{'seed': seed * 13 + i, 'kind': 'firstreply', 'sched': rnd.choice(('rtb', 'random', 'pct'))} for i in range(24 if tier == 'quick' else 200)]
     out += [{'seed': seed * 17 + i, 'kind': 'twins', 'sched': rnd.choice(('rtb', 'random', 'pct'))} for i in range(24 if tier == 'quick' else 200)]
-    out += [{'seed': seed * 19 + i, 'kind': 'latepk', 'sched': ('random', 'pct', 'pct', 'rtb')[i % 4]} for i in range(96 if tier == 'quick' else 600)]
+    out += [{'seed': seed * 19 + i, 'kind': 'latepk', 'sched': ('random', 'pct', 'pct', 'rtb')[i % 4]} for i in range(240 if tier == 'quick' else 1500)]
     out += [{'seed': seed * 7 + i, 'kind': 'radioflag'} for i in range(2 if tier == 'quick' else 12)]
     out += [{'seed': seed * 5 + i, 'kind': 'usbclose'} for i in range(2 if tier == 'quick' else 12)]
     return out
@@ -422,7 +422,12 @@ def run_latepk(desc, ctx):
     pat = [rnd.randrange(1, 250) for _ in range(rnd.randint(1, 3))]
     chan = rnd.randrange(4)
     D = rnd.choice((0.01, 0.03, T / 2.0))
-    dev = Responder(prof, {210: {'lose_tx': 0, 'lose_reply': 0, 'delay': D, 'reply': bytes(pat) + b'\xAA'}})
+    expiry = desc['seed'] % 3 == 2
+    if expiry:
+        # variant: nothing answers; the link is closed at the very instant the retry timer of the request expires (its thread
+        # may already be on its way to retransmit), and the new session asks the same thing at once
+        D = T
+    dev = Responder(prof, {210: {'lose_tx': 0, 'lose_reply': 0, 'delay': None if expiry else D, 'reply': bytes(pat) + b'\xAA'}})
     spec = simlink.LinkSpec(dev, needs_resending=True, latency=0.0)
     spec.deliver_queued_after_close = True
     uri = 'sim://c10late'
@@ -444,8 +449,11 @@ def run_latepk(desc, ctx):
         pk.set_header(PORT, chan)
         pk.data = bytes(pat) + bytes([210])
         cf.send_packet(pk, expected_reply=tuple(pat), timeout=T)
+        if expiry:
+            s.pct_rearm(depth=1, window=rnd.choice((15, 40, 100, 250)))
         s.sleep(D)                # the answer reaches the driver now ...
         old = cf.link
+        ob['session1'] = old.session if old is not None else None
         cf.close_link()           # ... and the application closes the link now
         done.clear()
         cf.open_link(uri)
@@ -461,13 +469,26 @@ def run_latepk(desc, ctx):
         ob['old_closed'] = bool(old is not None and old.closed)
         cf.close_link()
         s.sleep(0.3)
-    _, abort, sch = harness.sched_case(fn, seed=desc['seed'], policy=desc['sched'], horizon=2000.0)
+    if expiry:
+        # PCT schedules whose priority-change point is drawn among the steps around the expiry (every statement of the retry
+        # path is a step): the timer thread is demoted somewhere between waking up and deciding whether to retransmit
+        _, abort, sch = harness.sched_case(fn, seed=desc['seed'], policy='pct', horizon=2000.0, line_p=0.01,
+                                           line_focus=('_no_answer_do_retry', 'send_packet'), line_focus_p=1.0)
+    else:
+        _, abort, sch = harness.sched_case(fn, seed=desc['seed'], policy=desc['sched'], horizon=2000.0)
     ctx.evals()
     rp = dict(desc)
     if abort is not None or sch.deaths or ob.get('problem'):
         ctx.violate('retry:hang:latepk', {'abort': str(abort), 'deaths': [d[1] for d in sch.deaths][:2], 'problem': ob.get('problem')}, replay=rp)
         return
-    ctx.count('mon.reconnects_with_an_answer_of_the_closed_session_still_inside_its_driver')
+    if expiry:
+        ctx.count('mon.links_closed_at_the_instant_a_retry_timer_expires_and_reopened_at_once')
+        later = [t for t in spec.tx if (t[2] >> 4) & 0xF == PORT and t[3] and t[3][-1] == 210 and t[1] != ob.get('session1')]
+        if later:
+            ctx.violate('retry:request-of-an-earlier-session-transmitted-in-a-later-session',
+                        {'link_closed_at_the_instant_its_retry_timer_expired': True, 'T': T, 'transmissions_in_the_new_session': len(later)}, replay=rp)
+    else:
+        ctx.count('mon.reconnects_with_an_answer_of_the_closed_session_still_inside_its_driver')
     if ob.get('handed_out_after_close'):
         ctx.count('mon.answers_handed_out_by_the_driver_of_a_closed_session')
     ctx.nontrivial(('latepk', tuple(pat), T, D, sch.signature()))
